@@ -13,6 +13,8 @@ pub enum Text {
     Lit(String),
     /// text of byte length `capacity - len + delta` (clamped to 0..=8192) made of `unit` (ASCII)
     Fill { delta: i16, unit: char },
+    /// like `Fill` with delta 0, for rooms of up to 64 MiB (`Fill` stops at 8 KiB)
+    FillAll { unit: char },
     /// `unit` repeated `n` times (large texts without large replay files)
     Repeat { n: usize, unit: char },
 }
